@@ -69,6 +69,9 @@ func NewSrvWrap(engine, dir string, wrap func(bttest.Storage) bttest.Storage) (s
 	tr := newTrackStorage(storageFor(engine, s.Dir))
 	s.track = &tr
 	var st bttest.Storage = tr
+	if _, ok := tr.inner.(tableMetaDeleter); ok {
+		st = trackStorageMD{tr} // offer DeleteTableMeta exactly when the engine does
+	}
 	if wrap != nil {
 		st = wrap(st)
 	}
